@@ -700,10 +700,10 @@ func pkgClass(key string) string {
 // (vacuity covers are reported there).
 var propDeps = map[string][]string{
 	"C01": {"escape", "buffer", "rfmt", "builder", "root"},
-	"C02": {"rfmt", "builder"},
+	"C02": {"rfmt", "builder", "escape", "buffer"},
 	"C03": {"escape", "buffer", "rfmt", "builder", "root"},
-	"C05": {"rfmt", "builder"},
-	"C06": {"rfmt"},
+	"C05": {"rfmt", "builder", "escape", "buffer"},
+	"C06": {"rfmt", "escape", "buffer"},
 	"C07": {"markers"},
 	"C08": {"rfmt", "builder", "root", "markers", "buffer"},
 	"C09": {"builder", "rfmt", "buffer"},
